@@ -501,14 +501,19 @@ theorem arrival_exact_when_end_at_rest (chk : Bool) (s e : State F') (mv ma : Qu
 end
 
 /-! ### acceptance -/
-/-- **a move with room is accepted.** With `max_acc ≠ 0`, start and end speeds within `|max_vel|`, and
+/-- **a move with room is accepted.** With `max_vel ≠ 0`, `max_acc ≠ 0`, start and end speeds within `|max_vel|`, and
 `|Δp| ≥ |d_acc| + |d_dec|` (the acceleration and deceleration distances exactly as `new` computes them, signs
 included), none of the three asserts fires: the value-level constructor returns, and so does `new` itself without
-dimension checking (any units) and with dimension checking for limits in mm/s and mm/s². -/
-theorem accepted_when_room (s e : State F) (mv ma : F) (hma : ma ≠ 0)
+dimension checking (any units) and with dimension checking for limits in mm/s and mm/s².
+The hypothesis `hmv : mv ≠ 0` was ADDED after an audit: without it the statement is still true in a field, but at
+`mv = 0` only because a field has `x / 0 = 0` (`d_t2 = … / max_vel`), whereas the Rust computes `0.0 / 0.0 = NaN`
+and the third assert panics; a field says nothing about that case, so it is excluded.  With `hmv` and `hma` the two
+divisors of the constructor are non-zero (first conjunct), so every division in it is a genuine one. -/
+theorem accepted_when_room (s e : State F) (mv ma : F) (hmv : mv ≠ 0) (hma : ma ≠ 0)
     (hv0 : |s.velocity| ≤ |mv|) (hve : |e.velocity| ≤ |mv|)
     (hroom : |(s.velocity + vMax s e mv) / 2 * T1 s e mv ma| + |(vMax s e mv + e.velocity) / 2 * D3 s e mv ma|
       ≤ |e.position - s.position|) :
+    (vMax s e mv ≠ 0 ∧ aMax s e ma ≠ 0) ∧
     ((0 : F) ≤ T1 s e mv ma ∧ (0 : F) ≤ D3 s e mv ma ∧ (0 : F) ≤ D2 s e mv ma) ∧
     (∀ chk, newSpec chk s e mv ma = .ok (newResult chk s e mv ma)) ∧
     (∀ u u' : DUnit, MotionProfile.new false s e ⟨mv, u⟩ ⟨ma, u'⟩ = .ok (newResult false s e mv ma)) ∧
@@ -547,8 +552,8 @@ theorem accepted_when_room (s e : State F) (mv ma : F) (hma : ma ≠ 0)
   have hspec : ∀ chk, newSpec chk s e mv ma = .ok (newResult chk s e mv ma) := by
     intro chk
     simp only [newSpec, c0_eq, k1, k3, k2, not_true_eq_false, if_false]
-  exact ⟨⟨k1, k3, k2⟩, hspec, fun u u' => by rw [new_false]; exact hspec false,
-    by rw [new_true_good]; exact hspec true⟩
+  exact ⟨⟨vMax_ne_zero s e mv hmv, aMax_ne_zero s e ma hma⟩, ⟨k1, k3, k2⟩, hspec,
+    fun u u' => by rw [new_false]; exact hspec false, by rw [new_true_good]; exact hspec true⟩
 
 /-! ### mirror symmetry -/
 /-- the mirrored profile: positions, velocities and accelerations negated, times kept -/
@@ -710,7 +715,7 @@ example : getPiece mpQ 5 = .initialAcceleration ∧ getPiece mpQ 7 = .initialAcc
 example : (sec mpQ.t1 : ℚ) = 10 ∧ (sec mpQ.t2 : ℚ) = 30 ∧ (sec mpQ.t3 : ℚ) = 40 := by
   simp only [sec, mpQ]; norm_num
 /-- `accepted_when_room`'s hypotheses at the same inputs: distances 0.5 + 0.5 ≤ 3 -/
-example : (1/100 : ℚ) ≠ 0 ∧ |(0 : ℚ)| ≤ |(1/10 : ℚ)| := by norm_num
+example : (1/10 : ℚ) ≠ 0 ∧ (1/100 : ℚ) ≠ 0 ∧ |(0 : ℚ)| ≤ |(1/10 : ℚ)| := by norm_num
 
 /-- evaluating the value-level constructor from its intermediate values (tier S) -/
 private theorem newSpec_of_values {F : Type} [Add F] [Sub F] [Mul F] [Div F] [Neg F] [LT F] [LE F] [BEq F]
@@ -812,9 +817,9 @@ private theorem vals_Q :
     simp only [D2, hv, h1, h3, c2, FloatLike.ofInt]; norm_num
   exact ⟨hv, ha, h1, h3, h2⟩
 
-/-- the hypotheses of `accepted_when_room` at the 0 → 3 mm move: `0.5 + 0.5 ≤ 3` -/
+/-- the hypotheses of `accepted_when_room` at the 0 → 3 mm move: both limits non-zero, `0.5 + 0.5 ≤ 3` -/
 example :
-    (1/100 : ℚ) ≠ 0 ∧ |(⟨0, 0, 0⟩ : State ℚ).velocity| ≤ |(1/10 : ℚ)| ∧ |(⟨3, 0, 0⟩ : State ℚ).velocity| ≤ |(1/10 : ℚ)| ∧
+    (1/10 : ℚ) ≠ 0 ∧ (1/100 : ℚ) ≠ 0 ∧ |(⟨0, 0, 0⟩ : State ℚ).velocity| ≤ |(1/10 : ℚ)| ∧ |(⟨3, 0, 0⟩ : State ℚ).velocity| ≤ |(1/10 : ℚ)| ∧
     |((⟨0, 0, 0⟩ : State ℚ).velocity + vMax (⟨0, 0, 0⟩ : State ℚ) ⟨3, 0, 0⟩ (1/10)) / 2 *
         T1 (⟨0, 0, 0⟩ : State ℚ) ⟨3, 0, 0⟩ (1/10) (1/100)| +
       |(vMax (⟨0, 0, 0⟩ : State ℚ) ⟨3, 0, 0⟩ (1/10) + (⟨3, 0, 0⟩ : State ℚ).velocity) / 2 *
